@@ -486,6 +486,13 @@ class World(object):
         from PEPit import BlockPartition
         self.bind(op["out"], BlockPartition(d=op["d"]), "part")
 
+    def op_setcc(self, op):
+        """The user generates the class constraints of a function by hand (public Function.set_class_constraints),
+        e.g. to look at them before solving; the solve generates them again."""
+        f = self.get(op["f"])
+        f.set_class_constraints()
+        return {"value": len(f.list_of_class_constraints)}
+
     def op_fexpr(self, op):
         def ev(t):
             if isinstance(t, str):
